@@ -1,7 +1,7 @@
 #!/bin/bash
 # kill.sh <patch> <prop> [tier]   apply a patch to /repo's working tree, run the check, undo the patch.
 # prints: <patch> <prop> killed|survived|inconclusive (rc)
-patch=$1; prop=$2; tier=${3:-quick}
+patch=$(readlink -f "$1"); prop=$2; tier=${3:-quick}
 cd /repo || exit 3
 if [ -n "$(git status --porcelain)" ]; then echo "/repo not clean"; exit 3; fi
 if ! git apply "$patch"; then echo "$patch does not apply"; exit 3; fi
